@@ -951,6 +951,14 @@ func (s *ClientSession) GetOrCreatePublisher(ctx context.Context, mcu Mcu, strea
 			}(publisher)
 			return nil, ErrSessionReleased
 		}
+		if _, err := s.checkOfferTypeLocked(streamType, data); err != nil {
+			// The permissions changed while the publisher was created.
+			go func(pub McuPublisher) {
+				closeCtx := context.Background()
+				pub.Close(closeCtx)
+			}(publisher)
+			return nil, err
+		}
 		if s.publishers == nil {
 			s.publishers = make(map[StreamType]McuPublisher)
 		}
